@@ -115,6 +115,10 @@ CAPS = ["x", "y", "x as z", "x:@T", "x=1", "x='s'", "x=g(1, k=2)", "x~p(3)", "$x
 CTX = ["a", "b as c", "a:@T", "a=1", "$q", "g(y)", "g(y, z)", "a, b"]
 LAWS = [
     ("gt-vs-bang", lambda fn, cap, ctx: (f"{fn} > {cap}", f"{fn}(!{cap})")),
+    ("dollar-cat", lambda fn, cap, ctx: (f"{fn}({ctx}) > $x:@T", f"{fn}({ctx}) > * as x:@T")),
+    ("dollar-val", lambda fn, cap, ctx: (f"{fn}($x=1) > {cap}", f"{fn}(* as x=1) > {cap}")),
+    ("dollar-match", lambda fn, cap, ctx: (f"{fn}($x~p(3)) > {cap}", f"{fn}(* as x~p(3)) > {cap}")),
+    ("dollar-cat-val", lambda fn, cap, ctx: (f"{fn}({ctx}, $x:@T=1) > y", f"{fn}({ctx}, * as x:@T=1) > y")),
     ("gt-with-context", lambda fn, cap, ctx: (f"{fn}({ctx}) > {cap}", f"{fn}({ctx}, !{cap})")),
     ("chain-assoc", lambda fn, cap, ctx: (f"{fn} > g > {cap}", f"{fn} > (g > {cap})")),
     ("chain-nested", lambda fn, cap, ctx: (f"{fn} > g > {cap}", f"{fn}(g(!{cap}))")),
@@ -172,12 +176,25 @@ def main():
     cases = []
     seen = set()
 
+    kept = []
+
+    def attrs_of(obj):
+        try:
+            m = obj.main
+            return {"ok": True, "main": NONE if m is None else cs(m), "focus": bool(obj.focus)}
+        except AttributeError:
+            return {"ok": False, "main": NONE, "focus": False}
+
     def add_parse(s, src):
         if s in seen:
             return
         seen.add(s)
-        o, _ = outcome(s)
-        cases.append({"id": len(cases), "kind": "parse", "src": src, "text": s, "toks": tokens(s), "out": o})
+        o, obj = outcome(s)
+        at = {"ok": False, "main": NONE, "focus": False, "main2": NONE, "focus2": False, "same_later": True}
+        if isinstance(obj, (Element, Call)):
+            at.update(attrs_of(obj))
+            kept.append((len(cases), obj, s))
+        cases.append({"id": len(cases), "kind": "parse", "src": src, "text": s, "toks": tokens(s), "out": o, "attrs": at})
 
     maxlen = 4 if big else 3
     for n in range(0, maxlen + 1):
@@ -307,6 +324,12 @@ def main():
         again.append(attempt(text, ovr))
         cases.append({"id": len(cases), "kind": "select", "what": what, "text": text, "expect": expect, "outcome": o, "again": again,
                       "allowed": allowed + ["SyntaxError"]})
+    # selectors are interned for the life of the process: what they report must not have changed meanwhile
+    for ix, obj, text in kept:
+        again = attrs_of(obj)
+        cases[ix]["attrs"]["main2"], cases[ix]["attrs"]["focus2"] = again["main"], again["focus"]
+        # ... and compiling the same text again, thousands of compilations later, gives the very same object
+        cases[ix]["attrs"]["same_later"] = outcome(text)[1] is obj
     json.dump(cases, open(outp, "w"))
     import collections
     print(json.dumps({"cases": len(cases), "kinds": collections.Counter(c["kind"] for c in cases)}))
